@@ -346,14 +346,21 @@ impl RealNet {
         // the UDP port may need a moment to be released by the torn-down runtime
         let mut last = String::new();
         loop {
-            match start_node(&self.ctl, &kp, &root, port, full, initial.clone(), &evm, deadline) {
+            // the builder panics ("Multiaddr should be supported ...") while the old socket still holds the port
+            let attempt = std::panic::catch_unwind(std::panic::AssertUnwindSafe(|| start_node(&self.ctl, &kp, &root, port, full, initial.clone(), &evm, deadline))).unwrap_or_else(|_| Err("listener could not be bound yet".into()));
+            match attempt {
                 Ok((rt, running, net, port, addr)) => {
                     let nd = &mut self.nodes[i];
                     nd.rt = Some(rt);
                     nd.running = running;
                     nd.net = Some(net);
                     nd.port = port;
-                    nd.addr = addr;
+                    nd.addr = addr.clone();
+                    // the client's old connection to this identity is gone with the old process
+                    let c = self.client.clone();
+                    self.ctl.block_on(async move {
+                        let _ = tokio::time::timeout(Duration::from_secs(20), c.dial(addr)).await;
+                    });
                     return Ok(());
                 }
                 Err(e) => last = e,
